@@ -1,0 +1,9 @@
+//go:build verif
+
+package backend
+
+// VerifOSPath exposes the key path -> OS path mapping of the directory back end
+// (a pure function of the root and the key path) to the verification harness.
+func (b *DirectoryBackend) VerifOSPath(path string) (string, error) {
+	return b.osPath(path)
+}
